@@ -6,7 +6,7 @@ from . import common
 PROFILES = [
     ('perm', .15, dict(p_incompat=.1, n_conn=(1, 1), p_conn_cond=0., p_grp=.3, n_steps=(1, 4), max_sel=2)),
     ('cond', .35, dict(p_incompat=.15, n_conn=(1, 1), p_conn_cond=.7, p_grp=.0, n_steps=(2, 6), max_sel=3, max_opts=3)),
-    ('cond_grp', .3, dict(p_incompat=.15, n_conn=(1, 1), p_conn_cond=.7, p_grp=.6, p_side_cond=.3, n_steps=(2, 6),
+    ('cond_grp', .3, dict(p_incompat=.15, n_conn=(1, 1), p_conn_cond=.7, p_grp=.6, p_side_cond=.3, p_grp_open=.5, n_steps=(2, 6),
                           max_sel=3, max_opts=3)),
     ('excl', .12, dict(p_incompat=.1, n_conn=(1, 1), p_conn_cond=.6, p_grp=.3, p_excl=1., n_steps=(2, 6), max_sel=3,
                        max_opts=3)),
